@@ -679,6 +679,17 @@ def bulk_helpers(prog: Program, rep: Report):
             "call", ("global", f"{f.module.name}.getall"))]
         items = src[0][1] if src else None
         item_vars = {v_ for _, v_ in src}  # (copies of the loaded value count as the loaded value)
+        # the helper asks getall for its own (dataset, item): an argument left out falls back to getall's default item
+        ps_ = f.params()
+        for n_, var_, val_ in a.stores():
+            if val_ is None or a.sym.term(val_, n_)[:2] != ("call", ("global", f"{f.module.name}.getall")):
+                continue
+            t_ = a.sym.term(val_, n_)
+            given = list(t_[2]) + [v__ for _k, v__ in t_[3]]
+            missing = [p_ for p_ in ps_ if p_ in ("dataset", "item") and ("param", p_) not in given]
+            rep.decide(not missing, "G9.bulk-fallback", f, "passes-arguments", "getall receives the helper's dataset and item",
+                       f"{name} calls getall without its own argument(s) {', '.join(missing)}: the bulk values of another item "
+                       f"(getall's default) are returned whatever item was asked for", line=a.line(n_), clause="C02.4")
         ok = items is not None
         bad_ret = None
         for n, t in a.returns():
